@@ -132,13 +132,15 @@ struct St {
     switches: u64,
     f: [u64; 8],
     preempt_site: [u64; NSITES],
-    pairs: BTreeMap<(u8, u8), u64>,
+    pairs: [[u64; NSITES]; NSITES],
     work_differs: u64,
     sens_calls: u64,
     err_pending: u64,
     panic_pending: u64,
-    seen_expr: BTreeMap<u32, BTreeSet<u32>>,
-    seen_text: BTreeMap<&'static str, u8>,
+    // per expression id: first entry seen (u32::MAX = none), and whether two different entries were seen
+    seen_expr: Vec<(u32, bool)>,
+    // per text id: mask of evaluators that evaluated it
+    seen_text: Vec<u8>,
     max_inflight: usize,
 }
 
@@ -345,7 +347,7 @@ impl Shared {
                 st.switches += 1;
                 st.rec.push(Sw { thread: me as u32, call: call_no, tick, to: nx as u32 });
                 let to_site = st.parked_site[nx];
-                *st.pairs.entry((site as u8, to_site as u8)).or_insert(0) += 1;
+                st.pairs[site][to_site] += 1;
                 st.sched.u64(((me as u64) << 48) | ((nx as u64) << 40) | ((site as u64) << 32) | call_no as u64);
                 st.sched.u64(tick as u64);
                 if let Kind::Tick(_) = kind {
@@ -397,8 +399,9 @@ impl Shared {
         st.in_call[me] = None;
         st.calls += 1;
         st.ticks += ticks;
-        let enc = out.encode();
-        let oh = hash_str(&enc);
+        // no allocation on the client thread between two library calls beyond what the call itself needs:
+        // the harness must not perturb allocator reuse patterns a change under test might (wrongly) depend on
+        let oh = out.hash64();
         st.log.u64(0xC0DE_0000_0000_0000 | ((me as u64) << 32) | call_no as u64);
         st.log.u64(oh);
         st.log.u64(ticks);
@@ -425,20 +428,22 @@ impl Shared {
             _ => {}
         }
         {
-            let set = st.seen_expr.entry(e.expr_id).or_default();
-            let flipped = set.iter().any(|x| *x != entry);
-            set.insert(entry);
+            let (first, diverse) = st.seen_expr[e.expr_id as usize];
+            let flipped = diverse || (first != u32::MAX && first != entry);
+            if first == u32::MAX {
+                st.seen_expr[e.expr_id as usize].0 = entry;
+            } else if first != entry {
+                st.seen_expr[e.expr_id as usize].1 = true;
+            }
             if flipped {
                 st.f[3] += 1;
             }
         }
         {
-            let text: &'static str = self.pool.entries[entry as usize].call.expr.as_str();
             let bit = 1u8 << (e.call.ev as u8);
-            let m = st.seen_text.entry(text).or_insert(0);
-            let other_ev = *m & !bit != 0;
-            *m |= bit;
-            if other_ev {
+            let m = st.seen_text[e.text_id as usize];
+            st.seen_text[e.text_id as usize] = m | bit;
+            if m & !bit != 0 {
                 st.f[4] += 1;
             }
         }
@@ -447,7 +452,7 @@ impl Shared {
             let v = json!({
                 "client": me, "call_no": call_no, "entry": entry,
                 "call": e.call.to_json(),
-                "expected": e.oracle.encode(), "observed": enc, "kind": kind,
+                "expected": e.oracle.encode(), "observed": out.encode(), "kind": kind,
             });
             let rec = self.record(&st, "violation", Some(v));
             proc::item_finish(rec.to_string().as_bytes());
@@ -455,7 +460,14 @@ impl Shared {
     }
 
     fn record(&self, st: &St, status: &str, violation: Option<Value>) -> Value {
-        let pairs: Vec<Value> = st.pairs.iter().map(|((a, b), n)| json!([a, b, n])).collect();
+        let mut pairs: Vec<Value> = Vec::new();
+        for a in 0..NSITES {
+            for b in 0..NSITES {
+                if st.pairs[a][b] > 0 {
+                    pairs.push(json!([a, b, st.pairs[a][b]]));
+                }
+            }
+        }
         let mut v = json!({
             "st": status,
             "h": format!("{:016x}", st.log.finish()),
@@ -579,20 +591,20 @@ pub fn run_child(pool: &Pool, spec: &RunSpec) -> ! {
         step: 0,
         log: Hasher64::new(),
         sched: Hasher64::new(),
-        rec: Vec::new(),
-        results: Vec::new(),
+        rec: Vec::with_capacity(4096),
+        results: Vec::with_capacity(spec.clients.iter().map(|c| c.len()).sum::<usize>() + 1),
         calls: 0,
         ticks: 0,
         switches: 0,
         f: [0; 8],
         preempt_site: [0; NSITES],
-        pairs: BTreeMap::new(),
+        pairs: [[0; NSITES]; NSITES],
         work_differs: 0,
         sens_calls: 0,
         err_pending: 0,
         panic_pending: 0,
-        seen_expr: BTreeMap::new(),
-        seen_text: BTreeMap::new(),
+        seen_expr: vec![(u32::MAX, false); pool.by_expr.len()],
+        seen_text: vec![0u8; pool.n_texts.max(1)],
         max_inflight: 0,
     };
     let sh: &'static Shared = Box::leak(Box::new(Shared {
